@@ -1430,6 +1430,70 @@ example : ((mkThresholdX rn24 2 false (fun i j => if i = j then some 1 else some
       [.nl true, .resim (fun i j => if i = j then none else some (2/3))]).isSome = true := by
   decide +kernel
 
+/-! ### the request is missed by exactly three kinds of pairs — combined (round 5)
+
+Round 2 (`density_gap_non_local`: suppressed pairs) and round 4 (`x_density_gap`: NaN pairs) each
+named one extra term; here they hold together, for the computation as executed. -/
+
+/-- the ordered pairs above the threshold whose *float* damped similarity is not above it -/
+def suppressedX (fl : Rat → Rat) (S : XSim) (damp : Sim) (θ : Option Rat) (N : Nat) : Nat :=
+  ((List.range (N * N)).filter fun p => p / N != p % N).countP fun p =>
+    gtX (S (p / N) (p % N)) θ && !gtX (weightedX fl true S damp (p / N) (p % N)) θ
+
+/-- **"misses it by at most the tied pairs", as executed and with everything switched on**: NaN
+similarities, `non_local`, float product, rounded threshold.  For every raw index
+`k ≤ (1 − ρ)·len + ε`:
+`ρ·len − ε ≤ #linked + #tied at θ + #NaN + #suppressed by the (rounded) distance weight`. -/
+theorem x_density_gap_non_local (fl : Rat → Rat) (S : XSim) (damp : Sim) (N k : Nat) (ρ ε : Rat)
+    (θ : Option Rat)
+    (hrep : ∀ i j s, i < N → j < N → S i j = some s → fl s = s ∧ 0 ≤ s)
+    (hk : (k : Rat) ≤ (1 - ρ) * ((offDiagX S N).length : Rat) + ε)
+    (h : thresholdFromIndexX S N k = some θ) :
+    ρ * ((offDiagX S N).length : Rat) - ε
+      ≤ (nnz (thresholdAdjacencyX (weightedX fl true S damp) (θ.map fl) N) : Rat)
+        + (tiesX (offDiagX S N) θ : Rat) + ((offDiagX S N).countP Option.isNone : Rat)
+        + (suppressedX fl S damp θ N : Rat) := by
+  have h0 := x_density_gap fl S damp N k ρ ε θ hrep hk h
+  rw [selected_threshold_fixed fl S N k θ hrep h] at h0 ⊢
+  have hle : nnz (thresholdAdjacencyX (weightedX fl false S damp) θ N)
+      ≤ nnz (thresholdAdjacencyX (weightedX fl true S damp) θ N) + suppressedX fl S damp θ N := by
+    rw [nnz_thresholdAdjacencyX, nnz_thresholdAdjacencyX, weightedX_false]
+    simp only [offDiagX, List.countP_map, suppressedX]
+    exact countP_le_countP_add ((List.range (N * N)).filter fun p => p / N != p % N)
+      (fun p => gtX (S (p / N) (p % N)) θ)
+      (fun p => gtX (weightedX fl true S damp (p / N) (p % N)) θ)
+  have : (nnz (thresholdAdjacencyX (weightedX fl false S damp) θ N) : Rat)
+      ≤ (nnz (thresholdAdjacencyX (weightedX fl true S damp) θ N) : Rat)
+        + (suppressedX fl S damp θ N : Rat) := by exact_mod_cast hle
+  linarith
+
+/-- **… on every reachable float32 object, with the IEEE index**: after any history,
+`set_link_density(ρ)` with `non_local` on links at least
+`(ρ − 2⁻⁵² − 2⁻¹⁰⁶)·(N² − N) − #tied − #NaN − #suppressed` ordered pairs -/
+theorem rn24_density_gap_after_history (N : Nat) (directed : Bool) (S0 : XSim) (damp : Sim)
+    (nl : Bool) (θ : Option Rat) (ops : List XOp) (s' : XNet) (ρ : Rat) (θ' : Option Rat)
+    (h : (mkThresholdX rn24 N directed S0 damp nl θ).run rn24 ops = some s')
+    (h0 : 0 ≤ ρ) (h1 : ρ ≤ 1)
+    (h2 : thresholdFromIndexX s'.S N (ieeeIndex ρ (offDiagX s'.S N).length) = some θ') :
+    (ρ - ieeeSlack) * ((offDiagX s'.S N).length : Rat)
+      ≤ (nnz (thresholdAdjacencyX (weightedX rn24 true s'.S damp) (θ'.map rn24) N) : Rat)
+        + (tiesX (offDiagX s'.S N) θ' : Rat) + ((offDiagX s'.S N).countP Option.isNone : Rat)
+        + (suppressedX rn24 s'.S damp θ' N : Rat) := by
+  obtain ⟨hrep, _, _, _⟩ := rn24_stored_fixed_after_history N directed S0 damp nl θ ops s' h
+  obtain ⟨_, b2⟩ := ieeeIndex_bounds ρ (offDiagX s'.S N).length h0 h1
+  have := x_density_gap_non_local rn24 s'.S damp N _ ρ _ θ' (fun i j v _ _ hv => hrep i j v hv) b2 h2
+  linarith
+
+/-- 3 nodes, one NaN pair, weight 1/2 on the pair (0,2)/(2,0): request ρ = 1 → index 0 → threshold
+1/2 (4 finite values 1/2, 1/2, 3/4, 3/4; NaNs last); the pairs with 3/4 are suppressed
+(3/8 ≤ 1/2), the pairs with 1/2 tie: 6 = 0 linked + 2 tied + 2 NaN + 2 suppressed -/
+example : let S : XSim := fun i j => if i + j = 1 then none else if i + j = 2 then some (3/4) else some (1/2)
+    let damp : Sim := fun i j => if i + j = 2 then 1/2 else 1
+    thresholdFromIndexX S 3 0 = some (some (1/2)) ∧ suppressedX rn24 S damp (some (1/2)) 3 = 2 ∧
+      nnz (thresholdAdjacencyX (weightedX rn24 true S damp) (some (1/2)) 3) = 0 ∧
+      tiesX (offDiagX S 3) (some (1/2)) = 2 ∧ (offDiagX S 3).countP Option.isNone = 2 := by
+  decide +kernel
+
 section Scripts
 open Script
 
